@@ -172,11 +172,14 @@ Definition new_port (autoreset echo : bool) (script : list action) (faults : lis
      p_sleeps := 0; p_calls := 0; p_faults := faults |}.
 
 (* ---- MultiPort: _receive sweeps every open sub-port's pending messages without blocking; receive()'s own loop does the waiting ---- *)
+(* an upper bound on what a device script can still deliver (for the number of polls a sweep may need) *)
+Definition action_size (a : action) : nat := match a with AMsg _ => 1 | APush ms => S (length ms) | APushClose ms => S (length ms) | _ => 1 end.
+Definition script_size (l : list action) : nat := fold_right (fun a n => (action_size a + n)%nat) 0%nat l.
 Fixpoint sweep (fuel : nat) (subs : list port) : list port * list Z :=
   match subs with
   | [] => ([], [])
   | s :: r =>
-      let '(s', got) := if p_closed s then (s, []) else match iter_pending (S (S (length (p_queue s) + length (p_script s)))) fuel s with (s1, Ok l) => (s1, l) | (s1, Raise _) => (s1, []) end in
+      let '(s', got) := if p_closed s then (s, []) else match iter_pending (S (S (length (p_queue s) + script_size (p_script s)))) fuel s with (s1, Ok l) => (s1, l) | (s1, Raise _) => (s1, []) end in
       let '(r', more) := sweep fuel r in (s' :: r', got ++ more)
   end.
 Record multi := { m_queue : list Z; m_subs : list port; m_sleeps : nat }.
